@@ -158,6 +158,180 @@ def h_reconf(txt, f1, p1, f2, p2, mode, N):
     return body
 
 
+class _Part(object):
+    """numerator / denominator of a SymFrac: only their relation `num % den` (is the value integral?) is meaningful"""
+    def __init__(self, frac, which):
+        self.frac, self.which = frac, which
+
+    def __mod__(self, other):
+        if isinstance(other, _Part) and other.frac is self.frac and self.which == 'num' and other.which == 'den':
+            return _Rem(self.frac)
+        raise symx.Inconclusive('SymFrac: numerator/denominator used in a way the proxy does not model')
+
+
+class _Rem(object):
+    """num % den of a SymFrac: 0 iff the value is an integer (the fraction need not be in lowest terms for that)"""
+    def __init__(self, frac):
+        self.frac = frac
+
+    def _isint(self):
+        import z3
+        return z3.IsInt(self.frac.s.r)
+
+    def __gt__(self, o):
+        import z3
+        if o == 0:
+            return symx.SymBool(z3.Not(self._isint()))
+        raise symx.Inconclusive('SymFrac: remainder compared with a non-zero value')
+
+    def __ne__(self, o):
+        return self.__gt__(o)
+
+    def __eq__(self, o):
+        if o == 0:
+            return symx.SymBool(self._isint())
+        raise symx.Inconclusive('SymFrac: remainder compared with a non-zero value')
+
+    __hash__ = None
+
+    def __bool__(self):
+        return bool(self.__gt__(0))
+
+
+class SymFrac(object):
+    """stand-in for the fractions.Fraction that holds an interval bound: an ARBITRARY non-negative rational (solver variable).
+    Supports what a unit conversion does with a bound: scaling by concrete numbers, comparison, the integrality test
+    `numerator % denominator`, and int() - which forks over the values 0..K and leaves the claim beyond K."""
+    K = 4
+
+    def __init__(self, s):
+        self.s = s
+
+    def _lift(self, o):
+        return o.s if isinstance(o, SymFrac) else o
+
+    def __mul__(self, o): return SymFrac(self.s * self._lift(o))
+    __rmul__ = __mul__
+    def __truediv__(self, o): return SymFrac(self.s / self._lift(o))
+    def __add__(self, o): return SymFrac(self.s + self._lift(o))
+    __radd__ = __add__
+    def __sub__(self, o): return SymFrac(self.s - self._lift(o))
+    def __neg__(self): return SymFrac(-self.s)
+    def __lt__(self, o): return self.s < self._lift(o)
+    def __le__(self, o): return self.s <= self._lift(o)
+    def __gt__(self, o): return self.s > self._lift(o)
+    def __ge__(self, o): return self.s >= self._lift(o)
+    def __eq__(self, o): return self.s == self._lift(o)
+    def __ne__(self, o): return self.s != self._lift(o)
+    __hash__ = None
+
+    @property
+    def numerator(self): return _Part(self, 'num')
+
+    @property
+    def denominator(self): return _Part(self, 'den')
+
+    def limit_denominator(self, *a): return self
+
+    def __int__(self):
+        # int() truncates towards zero; the value is non-negative here
+        import z3
+        for k in range(self.K + 1):
+            if symx.SymBool(z3.And(self.s.r >= k, self.s.r < k + 1)):
+                return k
+        raise symx.PathAbort('bound beyond %d samples' % self.K)
+
+    __index__ = __int__
+    __trunc__ = __int__
+    __floor__ = __int__
+
+    def __round__(self, n=None):
+        import z3
+        for k in range(self.K + 2):
+            if symx.SymBool(z3.And(self.s.r >= k - z3.RealVal('1/2'), self.s.r < k + z3.RealVal('1/2'))):
+                return k
+        raise symx.PathAbort('bound beyond %d samples' % self.K)
+
+    def __float__(self):
+        raise symx.Inconclusive('SymFrac: float() of a symbolic bound')
+
+    def __repr__(self): return 'SymFrac(%r)' % (self.s,)
+    __str__ = __repr__
+
+
+def h_symbound(op, bu, eu, unit, period, mode):
+    """The two bounds of ONE bounded operator are arbitrary non-negative rationals B <= E (solver variables; written with units bu/eu,
+    '' = none).  z3 decides, for all of them: the monitor either rejects with RTAMTException - and then a bound is NOT an integer multiple
+    of the sampling period - or it uses exactly B*u/P and E*u/P samples (nothing is rounded) and returns the robustness of that window."""
+    f0 = _f(op, 1, 2)
+    vs = sorted(variables(f0))
+    P = Fraction(period[0] * U[period[1]])
+    du = unit or 's'
+    if not bu and not eu:
+        ub = ue = U[du]
+    else:
+        ub = U[bu or eu]
+        ue = U[eu or bu]
+
+    def body(env):
+        import rtamt
+        import z3
+        A = env.A
+        N = SymFrac.K + 2
+        txt = 'out = ' + OPS[op] % ('[1%s,2%s]' % (bu, eu))
+        kind = 'offline' if mode == 'offline' else 'online'
+        s = dt.make_spec(kind, txt, vs, unit=unit, period=tuple(period) + (0.1,))
+        B, E = env.real('B'), env.real('E')
+        env.assume(A.And(A.le(0, B), A.le(B, E), A.le(E * ue, SymFrac.K * P)))
+        if not env.symbolic:
+            B, E = Fraction(B).limit_denominator(10 ** 12), Fraction(E).limit_denominator(10 ** 12)
+        interp = s.offline_interpreter if mode == 'offline' else s.online_interpreter
+        nodes = list(s.ast.specs)
+        target = None
+        while nodes:
+            nd = nodes.pop()
+            if hasattr(nd, 'begin_unit'):
+                target = nd
+            nodes.extend(nd.children)
+        target.begin = SymFrac(B) if env.symbolic else B
+        target.end = SymFrac(E) if env.symbolic else E
+        seen = []
+        orig = interp.time_unit_transformer
+
+        def rec(node):
+            r = orig(node)
+            seen.append(r)
+            return r
+        interp.time_unit_transformer = rec
+        w = dt.trace(env, vs, N)
+        bi = A.And(_isint(A, B * ub / P), _isint(A, E * ue / P))
+        try:
+            got = [p[1] for p in dt.offline(s, w, N)] if mode == 'offline' else dt.online(s, w, N)
+        except rtamt.RTAMTException:
+            env.observe('rejected', 1)
+            return [('rejected-only-if-not-a-multiple', A.Not(bi))]
+        except (AttributeError, TypeError, ValueError) as e:
+            if 'SymFrac' in str(e) or '_Part' in str(e) or '_Rem' in str(e):
+                raise symx.Inconclusive('the bound proxy does not support this use: %s' % e)
+            raise
+        env.observe('out', got)
+        if not seen:
+            return [('bounds-converted', A.false)]
+        b_s, e_s = seen[0]
+        res = [('accepted-only-multiples', bi), ('begin-exact', A.eq(B * ub, b_s * P)), ('end-exact', A.eq(E * ue, e_s * P))]
+        if isinstance(b_s, int) and isinstance(e_s, int) and 0 <= b_s <= e_s:
+            res += dt.eq_list(A, 'window', got, rho(A, _f(op, b_s, e_s), w, N))
+        return res
+    return body
+
+
+def _isint(A, x):
+    if A.symbolic:
+        import z3
+        return z3.IsInt(symx.lift(x).r)
+    return Fraction(x).denominator == 1
+
+
 def h_nonmultiple(op, itext, unit, period, mode):
     vs = ['x', 'y'] if op in ('since_t', 'until_t', 'unless_t') else ['x']
 
@@ -273,6 +447,14 @@ def obligations(tier, rng):
                     n = 2 if op in ('since_t', 'until_t') else 3
                     out.append(ob('C08', 'dense', 'ct/%s/%s[%d,%d]/%s %s' % (mode, op, a, b, name, itext), op=op, a=a, b=b, itext=itext,
                                   unit=unit, scale=scale, mode=mode, n=n, max_paths=20000, wall=600))
+    # the bounds as SOLVER VARIABLES: every non-negative rational pair B <= E up to 4 sampling periods, every unit combination
+    for op in (['once_t', 'eventually_t', 'since_t'] if quick else list(OPS)):
+        for bu, eu in ([('', ''), ('ms', 's'), ('', 'ms'), ('us', '')] if quick else [(b_, e_) for b_ in ('', 's', 'ms', 'us') for e_ in ('', 's', 'ms', 'us')]):
+            for unit, period in ([(None, (1, 's')), (None, (500, 'ms')), ('ms', (2, 'ms'))] if quick else
+                                 [(None, (1, 's')), (None, (500, 'ms')), ('ms', (2, 'ms')), ('us', (250, 'us')), ('ns', (3, 'ns')), (None, (1, 'ns'))]):
+                for mode in (['offline'] if op in ('eventually_t', 'always_t', 'until_t', 'unless_t') else ['offline', 'online']):
+                    out.append(ob('C08', 'symbound', 'symbound/%s/%s[B%s,E%s]/unit=%s/P=%d%s' % (mode, op, bu, eu, unit, period[0], period[1]), op=op, bu=bu, eu=eu,
+                                  unit=unit, period=list(period), mode=mode, max_paths=2000, wall=600))
     # one object, configured twice (same number in another unit; another number; a configuration under which a bound is off the grid)
     for txt, mk in [('once[0:2000us](x)', lambda a, b: ('once_t', X, a, b)), ('always[1000us:2ms](x)', lambda a, b: ('always_t', X, a, b)),
                     ('(x) since[0:2ms] (y)', lambda a, b: ('since_t', X, Y, a, b)), ('historically[2ms:4000us](x)', lambda a, b: ('historically_t', X, a, b))]:
